@@ -36,7 +36,7 @@ type storMix struct {
 
 var storMixes = map[string]storMix{
 	"proofs":   {postPlan: 10, postOnce: 4, del: 1, buy: 3, badProof: 25, newcomerBad: 20, attest: 14, report: 1, param: 1, bank: 1, maxFiles: 4, provider: 30},
-	"rewards":  {postPlan: 12, postOnce: 3, del: 1, buy: 4, badProof: 2, newcomerBad: 2, attest: 0, report: 0, param: 0, bank: 1, maxFiles: 5, provider: 20},
+	"rewards":  {postPlan: 12, postOnce: 3, del: 1, buy: 4, badProof: 2, newcomerBad: 2, attest: 0, report: 0, param: 3, bank: 1, maxFiles: 5, provider: 20},
 	"usage":    {postPlan: 30, postOnce: 8, del: 14, buy: 10, badProof: 0, newcomerBad: 0, attest: 0, report: 0, param: 0, bank: 1, repostSameBlock: 6, maxFiles: 6, provider: 0},
 	"gauges":   {postPlan: 4, postOnce: 14, del: 0, buy: 16, badProof: 0, newcomerBad: 0, attest: 0, report: 0, param: 0, bank: 0, maxFiles: 4, provider: 0},
 	"attest":   {postPlan: 10, postOnce: 2, del: 1, buy: 3, badProof: 1, newcomerBad: 1, attest: 40, report: 30, param: 3, bank: 0, maxFiles: 3, provider: 40},
@@ -384,7 +384,11 @@ func (g *genStorage) paramStep(rng *Rng) Step {
 	case 3:
 		n["price_per_tb_per_month"] = rng.Pick64(1, 8, 15, 100)
 	}
-	return Step{Kind: "param", S: map[string]string{"module": "storage"}, N: n}
+	st := Step{Kind: "param", S: map[string]string{"module": "storage"}, N: n}
+	if rng.Chance(1, 2) {
+		st.S["via"] = "gov" // a real proposal + vote instead of a direct keeper write
+	}
+	return st
 }
 
 func (g *genStorage) buyOp(rng *Rng, u int) Op {
